@@ -82,7 +82,7 @@ example : Impl.loadOptionUnmarshal (Spec.encodeLoadOption
     .ok ⟨1, 116, "Linux é".toList,
       [.pci [1, 1, 6, 0] 0 0x1f, .file [4, 4, 10, 0] "\\EFI\\x".toList, .usb [3, 5, 6, 0] 2 0]⟩ :=
   C18_load_option _ _ (by decide)
-example : ¬ (Impl.Node.nil).WF := by decide
+example : ¬ (Impl.Node.generic [1, 9, 4, 0]).WF := by decide
 /-- the encoder's bytes for a small option, spelled out -/
 example : Spec.encodeLoadOption ⟨1, 6, ['A'], [.usb [3, 5, 6, 0] 2 0]⟩ =
     [1, 0, 0, 0, 6, 0, 0x41, 0, 0, 0, 3, 5, 6, 0, 2, 0, 0x7f, 0xff, 4, 0] := by decide
